@@ -321,6 +321,49 @@ func Start(recorder func() service.TerminalEventer, extra ...service.Option) (*S
 	return nil, fmt.Errorf("server did not start listening")
 }
 
+// StartAfterFailedRuns: an application that starts its server while the port is still taken (the previous instance is
+// shutting down) and retries: Run() is called `failed` times on the SAME object while another listener holds the port (each call
+// logs the listen failure and returns), then the port is released and Run() is called once more and serves.
+func StartAfterFailedRuns(recorder func() service.TerminalEventer, failed int, extra ...service.Option) (*Server, error) {
+	for attempt := 0; attempt < 20; attempt++ {
+		hold, err := net.Listen("tcp", "127.0.0.1:0")
+		if err != nil {
+			continue
+		}
+		addr := hold.Addr().String()
+		opts := []service.Option{service.WithHostPorts(addr)}
+		if recorder != nil {
+			opts = append(opts, service.WithCustomTerminalEventer(recorder))
+		}
+		opts = append(opts, extra...)
+		g := service.New(opts...)
+		returned := true
+		for k := 0; k < failed && returned; k++ {
+			done := make(chan struct{})
+			go func() { g.Run(); close(done) }()
+			select {
+			case <-done:
+			case <-time.After(10 * time.Second):
+				returned = false
+			}
+		}
+		hold.Close()
+		if !returned {
+			return nil, fmt.Errorf("Run() did not return although the port was taken")
+		}
+		go g.Run()
+		for i := 0; i < 200; i++ {
+			c, err := net.DialTimeout("tcp", addr, 200*time.Millisecond)
+			if err == nil {
+				c.Close()
+				return &Server{G: g, Addr: addr}, nil
+			}
+			time.Sleep(5 * time.Millisecond)
+		}
+	}
+	return nil, fmt.Errorf("server did not start listening")
+}
+
 // ---------------------------------------------------------------------------------------------
 // Simulated terminal
 
